@@ -22,7 +22,17 @@ def construct(name, dim):
     from artap import benchmark_functions as bf
     from artap import benchmark_robust as br
     cls = getattr(bf, name, None) or getattr(br, name)
-    return cls(dimension=dim) if dim is not None else cls()
+    prob = cls(dimension=dim) if dim is not None else cls()
+    if dim is not None:
+        # other instances of the same class (other dimensions) are created afterwards and kept alive: a benchmark object describes its own
+        # dimension, whatever was constructed after it
+        construct.keep = []
+        for d in (1, dim + 1, 2 * dim + 3, 5, 10):
+            try:
+                construct.keep.append(cls(dimension=d))
+            except Exception:      # noqa -- a dimension this class does not accept (Michalewicz: 2, 5, 10 only)
+                pass
+    return prob
 
 
 class Contract(Part):
